@@ -66,6 +66,7 @@ def standard_pool():
     p.add("info_b", lcov(b"src/b.c", [(1, 3), (4, 4)], tn=False))            # starts with SF:
     p.add("info_a2", lcov(b"src/a.c", [(1, 2), (3, 1)]))                     # same source again: counts add up
     p.add("info_c", lcov(b"src/c.c", [(1, 5), (2, 0)]))                        # shipped twice under the same name: counts double
+    p.add("info_win", lcov(b"src/win.c", [(1, 7)]))                           # member / file / argument names with backslashes (ordinary characters on Unix)
     p.add("info_dot", lcov(b"src/dot.c", [(1, 1)]))                           # lives under a dot-named directory
     p.add("info_dotfile", lcov(b"src/dotfile.c", [(2, 2)]))                   # dot-prefixed file name
     p.add("xml_1", jacoco(b"r1", b"A.java", [(1, 1), (2, 0)], pad=300))
@@ -119,6 +120,10 @@ def artifacts_std(pool, with_prof=False, gcc=True):
          ("gcno", "deep/er/reader.gcno", "llvm_gcno_reader"),                  # orphan gcno
          # dots inside the stem (CMake: file.c.gcno / file.c.gcda), next to a file.gcda that belongs to nothing
          ("gcno", "app/file.c.gcno", "llvm_gcno_file"), ("gcda", "app/file.c.gcda", "llvm_gcda_file"), ("gcda", "app/file.gcda", "llvm_gcda_file_branch"),
+         # backslashes in names (a zip written on Windows, or just odd file names): used like any other name
+         ("info", "win\\cov\\w.info", "info_win"), ("xml", "rep\\w.xml", "xml_2"), ("info", "\\lead.info", "info_win"),
+         ("gcno", "obj\\wf.gcno", "llvm_gcno_file"), ("gcda", "obj\\wf.gcda", "llvm_gcda_file"), ("gcda", "obj\\wf.gcda", "llvm_gcda_file"),
+         ("gcno", "bs/deep\\er.x\\fb.gcno", "llvm_gcno_file_branch"), ("gcda", "bs/deep\\er.x\\fb.gcda", "llvm_gcda_file_branch"),
          ("gcno", "a.b.c.gcno", "llvm_gcno_reader"), ("gcda", "a.b.c.gcda", "llvm_gcda_reader"), ("gcda", "a.gcda", "gcda_lonely"),
          ("gcda", "lonely.gcda", "gcda_lonely")]                              # orphan gcda
     if gcc:
@@ -159,8 +164,7 @@ def gen_layout(rng, arts, kinds=("dir", "zip", "plain"), max_containers=5):
         es = list(c["entries"].items())
         rng.shuffle(es)
         # directory arguments whose NAME carries an extension grcov knows are directories like any other
-        # (a directory argument named *.zip is the known finding dir-named-zip: only in the hand-made stream)
-        sfx = rng.choice(["", "", ".info", ".json", ".xml", ".profraw", ".profdata", ".gcno", ".gcda", ".d"])
+        sfx = rng.choice(["", "", ".info", ".json", ".xml", ".profraw", ".profdata", ".gcno", ".gcda", ".d", ".zip", "\\b"])
         nm = ("d%d%s" % (i, sfx)) if c["kind"] == "dir" else ("z%d%s.zip" % (i, rng.choice(["", "", ".info", ".xml", ".gcno"])))
         if rng.random() < 0.3:
             nm = "up/" + nm
